@@ -51,7 +51,9 @@ func lowerFirst(s string) string { return strings.ToLower(s[:1]) + s[1:] }
 
 // genAPI extracts the tables the C12 model depends on:
 // Permission constants, parseAPIPermission names, getEffectiveMethod classes, session TTL,
-// the Authorization scheme prefixes, the bridge permission, the origin exceptions.
+// the Authorization scheme prefixes, the statement sequence of checkSessionCookie after the session
+// lookup (with the comparison of session.Expired and the assignment of session.Refresh),
+// the bridge permission, the origin exceptions.
 func genAPI() {
 	var sb strings.Builder
 	sb.WriteString("import PB.Bytes\nnamespace PB.Gen.Api\nopen PB\n\n")
@@ -227,6 +229,12 @@ func genAPI() {
 	fmt.Fprintf(&sb, "\n/-- %q -/\ndef bearerPrefix : Bytes := %s\n/-- %q -/\ndef basicPrefix : Bytes := %s\n",
 		prefixes[0], leanBytes(prefixes[0]), prefixes[1], leanBytes(prefixes[1]))
 
+	// ---- sessions: Expired / Refresh / checkSessionCookie / createSession / cleanSessions -------
+	genSessionSteps(&sb, fset, f)
+
+	// ---- the key import as a critical section of apiKeysLock --------------------------------------
+	genKeyImportOrder(&sb, fset, f)
+
 	// ---- bridge permission (api/database.go) ---------------------------------------------------
 	fset2, f2 := parseFile("api/database.go")
 	bridge := ""
@@ -302,4 +310,335 @@ func genAPI() {
 
 	sb.WriteString("\nend PB.Gen.Api\n")
 	write("Api.lean", sb.String())
+}
+
+// stmtString prints a statement on one line.
+func stmtString(fset *token.FileSet, n ast.Node) string {
+	var sb strings.Builder
+	if err := printerFprintNode(&sb, fset, n); err != nil {
+		die("print stmt: %v", err)
+	}
+	return strings.Join(strings.Fields(sb.String()), " ")
+}
+
+// isLogStmt: a call on the log package (log.Tracer(...).Tracef(...), log.Debugf(...)): no effect on the decision.
+func isLogStmt(fset *token.FileSet, st ast.Stmt) bool {
+	es, ok := st.(*ast.ExprStmt)
+	if !ok {
+		return false
+	}
+	if _, ok := es.X.(*ast.CallExpr); !ok {
+		return false
+	}
+	return strings.HasPrefix(stmtString(fset, es), "log.")
+}
+
+func noLogs(fset *token.FileSet, list []ast.Stmt) []ast.Stmt {
+	var out []ast.Stmt
+	for _, st := range list {
+		if !isLogStmt(fset, st) {
+			out = append(out, st)
+		}
+	}
+	return out
+}
+
+// lockedBody checks that a session method starts with `sess.Lock(); defer sess.Unlock()` and returns the rest.
+func lockedBody(fset *token.FileSet, fd *ast.FuncDecl, what string) []ast.Stmt {
+	if fd == nil || fd.Body == nil {
+		die("%s not found", what)
+	}
+	l := fd.Body.List
+	if len(l) < 2 || stmtString(fset, l[0]) != "sess.Lock()" || stmtString(fset, l[1]) != "defer sess.Unlock()" {
+		die("%s: expected to start with sess.Lock(); defer sess.Unlock()", what)
+	}
+	return l[2:]
+}
+
+// genSessionSteps ties the session part of the model to the source:
+//   - session.Expired is exactly `return time.Now().After(sess.validUntil)` (strictly after) or
+//     `return !time.Now().Before(sess.validUntil)` (at or after),
+//   - session.Refresh is exactly `sess.validUntil = time.Now().Add(ttl)`,
+//   - checkSessionCookie, after the lookup of the session, is a sequence of
+//     `if sess.Expired() { [log]; return nil }` | `sess.Refresh(sessionCookieTTL)` | `return sess.token`
+//     (emitted in source order; the model interprets the sequence, so moving the refresh in front of
+//     the expiry check changes the model and breaks the finality theorems),
+//   - createSession refreshes the new session with sessionCookieTTL before storing it,
+//   - cleanSessions deletes exactly the sessions for which Expired() holds.
+//
+// Anything else - another method on the session, a merged check-and-refresh, a refresh inside the
+// expired branch - is an unknown shape: the extractor fails closed.
+func genSessionSteps(sb *strings.Builder, fset *token.FileSet, f *ast.File) {
+	// session.Expired
+	rest := lockedBody(fset, findFunc(f, "Expired", "session"), "session.Expired")
+	if len(rest) != 1 {
+		die("session.Expired: expected a single return after the lock")
+	}
+	strict := ""
+	switch stmtString(fset, rest[0]) {
+	case "return time.Now().After(sess.validUntil)":
+		strict = "true"
+	case "return !time.Now().Before(sess.validUntil)":
+		strict = "false"
+	default:
+		die("session.Expired: unknown comparison %q", stmtString(fset, rest[0]))
+	}
+	// session.Refresh
+	fd := findFunc(f, "Refresh", "session")
+	rest = lockedBody(fset, fd, "session.Refresh")
+	if len(fd.Type.Params.List) != 1 || len(fd.Type.Params.List[0].Names) != 1 || fd.Type.Params.List[0].Names[0].Name != "ttl" ||
+		len(rest) != 1 || stmtString(fset, rest[0]) != "sess.validUntil = time.Now().Add(ttl)" {
+		die("session.Refresh: expected exactly `sess.validUntil = time.Now().Add(ttl)`")
+	}
+	// no other method may touch validUntil
+	for _, d := range f.Decls {
+		fd, ok := d.(*ast.FuncDecl)
+		if !ok || fd.Body == nil {
+			continue
+		}
+		isSess := fd.Recv != nil && findFunc(f, fd.Name.Name, "session") == fd
+		if isSess && (fd.Name.Name == "Expired" || fd.Name.Name == "Refresh") {
+			continue
+		}
+		ast.Inspect(fd.Body, func(n ast.Node) bool {
+			if sel, ok := n.(*ast.SelectorExpr); ok && sel.Sel.Name == "validUntil" {
+				die("%s reads or writes validUntil directly (only session.Expired and session.Refresh are modelled to do so)", fd.Name.Name)
+			}
+			return true
+		})
+	}
+
+	// checkSessionCookie
+	fd = findFunc(f, "checkSessionCookie", "")
+	if fd == nil {
+		die("checkSessionCookie not found")
+	}
+	body := noLogs(fset, fd.Body.List)
+	prefix := []string{
+		"c, err := r.Cookie(sessionCookieName)",
+		"if err != nil { return nil }",
+		"sessionsLock.Lock()",
+		"sess, ok := sessions[c.Value]",
+		"sessionsLock.Unlock()",
+		"if !ok { return nil }",
+	}
+	if len(body) < len(prefix) {
+		die("checkSessionCookie: body too short")
+	}
+	for i, want := range prefix {
+		st := body[i]
+		if is, ok := st.(*ast.IfStmt); ok && is.Init == nil && is.Else == nil {
+			// compare without the log statements of the block
+			cp := *is
+			blk := *is.Body
+			blk.List = noLogs(fset, is.Body.List)
+			cp.Body = &blk
+			st = &cp
+		}
+		if got := stmtString(fset, st); got != want {
+			die("checkSessionCookie: statement %d is %q, expected %q", i, got, want)
+		}
+	}
+	var steps []string
+	for _, st := range body[len(prefix):] {
+		switch x := st.(type) {
+		case *ast.IfStmt:
+			blk := noLogs(fset, x.Body.List)
+			if x.Init != nil || x.Else != nil || stmtString(fset, x.Cond) != "sess.Expired()" || len(blk) != 1 || stmtString(fset, blk[0]) != "return nil" {
+				die("checkSessionCookie: unknown if statement %q (expected `if sess.Expired() { return nil }`)", stmtString(fset, x))
+			}
+			steps = append(steps, ".refuseIfExpired")
+		case *ast.ExprStmt:
+			if stmtString(fset, x) != "sess.Refresh(sessionCookieTTL)" {
+				die("checkSessionCookie: unknown statement %q", stmtString(fset, x))
+			}
+			steps = append(steps, ".refresh")
+		case *ast.ReturnStmt:
+			if stmtString(fset, x) != "return sess.token" {
+				die("checkSessionCookie: unknown return %q", stmtString(fset, x))
+			}
+			steps = append(steps, ".grant")
+		default:
+			die("checkSessionCookie: unknown statement %q", stmtString(fset, st))
+		}
+	}
+	if len(steps) == 0 || steps[len(steps)-1] != ".grant" {
+		die("checkSessionCookie: must end in `return sess.token`")
+	}
+	for _, s := range steps[:len(steps)-1] {
+		if s == ".grant" {
+			die("checkSessionCookie: statements after `return sess.token`")
+		}
+	}
+
+	// createSession: the new session is refreshed with the TTL before it is stored
+	fd = findFunc(f, "createSession", "")
+	if fd == nil {
+		die("createSession not found")
+	}
+	seenNew, seenRefresh, seenStore := -1, -1, -1
+	for i, st := range fd.Body.List {
+		switch stmtString(fset, st) {
+		case "sess := &session{ token: token, }":
+			seenNew = i
+		case "sess.Refresh(sessionCookieTTL)":
+			seenRefresh = i
+		case "sessions[sessionKey] = sess":
+			seenStore = i
+		}
+	}
+	if !(seenNew >= 0 && seenNew < seenRefresh && seenRefresh < seenStore) {
+		die("createSession: expected sess := &session{token: token}; sess.Refresh(sessionCookieTTL); … sessions[sessionKey] = sess")
+	}
+	// cleanSessions: deletes exactly the expired sessions
+	fd = findFunc(f, "cleanSessions", "")
+	if fd == nil {
+		die("cleanSessions not found")
+	}
+	okClean := false
+	for _, st := range fd.Body.List {
+		if rs, ok := st.(*ast.RangeStmt); ok {
+			if stmtString(fset, rs) == "for sessionKey, sess := range sessions { if sess.Expired() { delete(sessions, sessionKey) } }" {
+				okClean = true
+			} else {
+				die("cleanSessions: unknown loop %q", stmtString(fset, rs))
+			}
+		}
+	}
+	if !okClean {
+		die("cleanSessions: loop over sessions not found")
+	}
+
+	sb.WriteString("\n/-- One statement of `checkSessionCookie` after the session has been looked up. -/\ninductive CookieStep\n" +
+		"  | refuseIfExpired   -- `if sess.Expired() { return nil }`\n" +
+		"  | refresh           -- `sess.Refresh(sessionCookieTTL)`\n" +
+		"  | grant             -- `return sess.token`\n" +
+		"  deriving DecidableEq, Repr\n")
+	fmt.Fprintf(sb, "\n/-- `checkSessionCookie` after the lookup, in source order. -/\ndef checkSessionCookieSteps : List CookieStep := [%s]\n", strings.Join(steps, ", "))
+	fmt.Fprintf(sb, "\n/-- `session.Expired` is `time.Now().After(validUntil)` (strictly after: true) or `!time.Now().Before(validUntil)` (false). -/\ndef sessionExpiredStrict : Bool := %s\n", strict)
+}
+
+// genKeyImportOrder ties the atomicity of the model's `updateAPIKeys` step to the source: it emits, in
+// source order, where updateAPIKeys takes apiKeysLock (released by a deferred Unlock, i.e. held to the
+// end), empties the key map, reads the configured keys and stores into the key map. The model treats
+// the import as ONE step (read the option + rebuild the map); that is the code only if the lock comes
+// first - pinned by theorem `key_import_is_one_critical_section`. It also checks that checkAPIKey
+// looks a key up under the same lock. Any other locking shape fails closed.
+func genKeyImportOrder(sb *strings.Builder, fset *token.FileSet, f *ast.File) {
+	fd := findFunc(f, "updateAPIKeys", "")
+	if fd == nil {
+		die("updateAPIKeys not found")
+	}
+	var order []string
+	seen := map[string]bool{}
+	add := func(ev string) {
+		if !seen[ev] {
+			seen[ev] = true
+			order = append(order, ev)
+		}
+	}
+	list := fd.Body.List
+	for i, st := range list {
+		switch stmtString(fset, st) {
+		case "apiKeysLock.Lock()":
+			if seen[".lock"] {
+				die("updateAPIKeys: apiKeysLock taken more than once")
+			}
+			if i+1 >= len(list) || stmtString(fset, list[i+1]) != "defer apiKeysLock.Unlock()" {
+				die("updateAPIKeys: apiKeysLock.Lock() must be followed by defer apiKeysLock.Unlock()")
+			}
+			add(".lock")
+			continue
+		case "defer apiKeysLock.Unlock()":
+			if i == 0 || stmtString(fset, list[i-1]) != "apiKeysLock.Lock()" {
+				die("updateAPIKeys: stray defer apiKeysLock.Unlock()")
+			}
+			continue
+		}
+		ast.Inspect(st, func(n ast.Node) bool {
+			switch x := n.(type) {
+			case *ast.FuncLit:
+				return false // the cleanup micro task runs later, on its own
+			case *ast.CallExpr:
+				fn := exprString(fset, x.Fun)
+				switch {
+				case fn == "configuredAPIKeys":
+					add(".readConfig")
+				case fn == "delete" && len(x.Args) == 2 && exprString(fset, x.Args[0]) == "apiKeys":
+					add(".clear")
+				case strings.HasPrefix(fn, "apiKeysLock."):
+					die("updateAPIKeys: unexpected %s() inside a statement", fn)
+				}
+			case *ast.AssignStmt:
+				for _, l := range x.Lhs {
+					if ie, ok := l.(*ast.IndexExpr); ok && exprString(fset, ie.X) == "apiKeys" {
+						add(".install")
+					}
+					if exprString(fset, l) == "apiKeys" {
+						die("updateAPIKeys: the key map itself is replaced (unknown shape)")
+					}
+				}
+			}
+			return true
+		})
+	}
+	for _, need := range []string{".lock", ".clear", ".readConfig", ".install"} {
+		if !seen[need] {
+			die("updateAPIKeys: %s not found", need)
+		}
+	}
+	// checkAPIKey: the lookup happens under the lock
+	fd = findFunc(f, "checkAPIKey", "")
+	if fd == nil {
+		die("checkAPIKey not found")
+	}
+	lockAt, lookupAt := -1, -1
+	for i, st := range fd.Body.List {
+		s := stmtString(fset, st)
+		if s == "apiKeysLock.Lock()" && i+1 < len(fd.Body.List) && stmtString(fset, fd.Body.List[i+1]) == "defer apiKeysLock.Unlock()" && lockAt < 0 {
+			lockAt = i
+		}
+		uses := false
+		ast.Inspect(st, func(n ast.Node) bool {
+			if id, ok := n.(*ast.Ident); ok && id.Name == "apiKeys" {
+				uses = true
+			}
+			return true
+		})
+		if uses && lookupAt < 0 {
+			lookupAt = i
+		}
+	}
+	// ... and is a pure lookup: it stores nothing into the key map or into a stored token (the model's
+	// checkAPIKey has no effect on the state; an expired key stays expired however often it is presented)
+	ast.Inspect(fd.Body, func(n ast.Node) bool {
+		var lhs []ast.Expr
+		switch x := n.(type) {
+		case *ast.AssignStmt:
+			lhs = x.Lhs
+		case *ast.IncDecStmt:
+			lhs = []ast.Expr{x.X}
+		case *ast.CallExpr:
+			if exprString(fset, x.Fun) == "delete" {
+				die("checkAPIKey: deletes from a map (the lookup is modelled without effect)")
+			}
+		}
+		for _, l := range lhs {
+			s := exprString(fset, l)
+			if strings.HasPrefix(s, "token.") || strings.HasPrefix(s, "*token") || strings.HasPrefix(s, "apiKeys") {
+				die("checkAPIKey: writes %s (the lookup is modelled without effect on the stored keys)", s)
+			}
+		}
+		return true
+	})
+	if lockAt < 0 || lookupAt < 0 || lookupAt < lockAt {
+		die("checkAPIKey: the key lookup is not inside apiKeysLock.Lock(); defer apiKeysLock.Unlock()")
+	}
+	sb.WriteString("\n/-- What `updateAPIKeys` does to the shared key map and the option, in source order. -/\ninductive KeyImportOp\n" +
+		"  | lock         -- `apiKeysLock.Lock(); defer apiKeysLock.Unlock()` (held to the end of the import)\n" +
+		"  | clear        -- `delete(apiKeys, k)` for every key\n" +
+		"  | readConfig   -- `configuredAPIKeys()`\n" +
+		"  | install      -- `apiKeys[path] = token`\n" +
+		"  deriving DecidableEq, Repr\n")
+	fmt.Fprintf(sb, "\ndef updateAPIKeysOrder : List KeyImportOp := [%s]\n", strings.Join(order, ", "))
 }
